@@ -275,6 +275,21 @@ package mpb
 //@   ensures  ewma: hasEwma == (hasType(result, "ewmaProxyWriter") || hasType(result, "ewmaProxyReaderFrom"))
 //@   ensures  plain: !hasEwma == (hasType(result, "proxyWriter") || hasType(result, "proxyReaderFrom"))
 
+// proxies are made on the bar goroutine (it knows whether moving-average decorators exist);
+// once the bar is done the caller gets nil
+//@ func (*Bar).ProxyReader
+//@   props    C19 C02 C10
+//@   requires b != nil
+//@   ensures  atomic: sent(b.operateState) <= old(sent(b.operateState)) + 1
+//@   ensures  accepted: r != nil ==> sent(b.operateState) == old(sent(b.operateState)) + 1 || recvd(done(b.ctx)) > old(recvd(done(b.ctx)))
+//@   ensures  payload: sent(b.operateState) == old(sent(b.operateState)) + 1 ==> fnof(lastSent(b.operateState)) == fn("(*Bar).ProxyReader$1") && bound(lastSent(b.operateState), "r") == in(r) && bound(lastSent(b.operateState), "b") == in(b)
+//@ func (*Bar).ProxyWriter
+//@   props    C19 C02 C10
+//@   requires b != nil
+//@   ensures  atomic: sent(b.operateState) <= old(sent(b.operateState)) + 1
+//@   ensures  accepted: w != nil ==> sent(b.operateState) == old(sent(b.operateState)) + 1 || recvd(done(b.ctx)) > old(recvd(done(b.ctx)))
+//@   ensures  payload: sent(b.operateState) == old(sent(b.operateState)) + 1 ==> fnof(lastSent(b.operateState)) == fn("(*Bar).ProxyWriter$1") && bound(lastSent(b.operateState), "w") == in(w) && bound(lastSent(b.operateState), "b") == in(b)
+
 //@ func (*Bar).ProxyReader$1
 //@   props    C19
 //@   requires s != nil && r != nil && b != nil && !closed(result)
@@ -888,22 +903,197 @@ package mpb
 //@ func WithOutput$1
 //@   props    C02 C15 C04
 //@   requires w != nil
+//@   ensures  set: s.output == w
 //@ func WithDebugOutput$1
 //@   props    C02 C15
 //@   requires w != nil
+//@   ensures  set: s.debugOut == w
 //@ func WithOutput
 //@   props    C02 C15 C04
 //@   assumes  discard: global("io.Discard") != nil
+//@   ensures  option: result != nil && fnof(result) == fn("WithOutput$1") && (in(w) != nil ==> bound(result, "w") == in(w)) && (in(w) == nil ==> bound(result, "w") == global("io.Discard"))
 //@ func WithDebugOutput
 //@   props    C02 C15
 //@   assumes  discard: global("io.Discard") != nil
+//@   ensures  option: result != nil && fnof(result) == fn("WithDebugOutput$1") && (in(w) != nil ==> bound(result, "w") == in(w)) && (in(w) == nil ==> bound(result, "w") == global("io.Discard"))
 // the delay channel is the caller's
 //@ func WithRenderDelay$1
 //@   props    C02 C04
 //@   requires isext(ch)
+//@   ensures  set: s.delayRC == ch
 //@ func WithRenderDelay
 //@   props    C02 C04
 //@   assumes  callers: isext(ch)
+//@   ensures  option: result != nil && fnof(result) == fn("WithRenderDelay$1") && bound(result, "ch") == in(ch)
+
+
+// ---------------------------------------------------------------------------------------
+// option constructors: each returns its own closure over its own argument, and the closure
+// sets exactly the field the option is documented to set
+
+//@ func BarID
+//@   props    C02 C09
+//@   modifies nothing
+//@   ensures  option: result != nil && fnof(result) == fn("BarID$1") && bound(result, "id") == in(id)
+
+//@ func BarID$1
+//@   props    C02 C09
+//@   requires s != nil
+//@   modifies s.id
+//@   ensures  set: s.id == id
+
+//@ func BarWidth
+//@   props    C02 C07
+//@   modifies nothing
+//@   ensures  option: result != nil && fnof(result) == fn("BarWidth$1") && bound(result, "width") == in(width)
+
+//@ func BarWidth$1
+//@   props    C02 C07
+//@   requires s != nil
+//@   modifies s.reqWidth
+//@   ensures  set: s.reqWidth == width
+
+//@ func BarRemoveOnComplete
+//@   props    C02 C03 C05
+//@   modifies nothing
+//@   ensures  option: result != nil && fnof(result) == fn("BarRemoveOnComplete$1")
+
+//@ func BarRemoveOnComplete$1
+//@   props    C02 C03 C05
+//@   requires s != nil
+//@   modifies s.rmOnComplete
+//@   ensures  set: s.rmOnComplete == true
+
+//@ func BarPriority
+//@   props    C02 C06
+//@   modifies nothing
+//@   ensures  option: result != nil && fnof(result) == fn("BarPriority$1") && bound(result, "priority") == in(priority)
+
+//@ func BarPriority$1
+//@   props    C02 C06
+//@   requires s != nil
+//@   modifies s.priority
+//@   ensures  set: s.priority == priority
+
+//@ func BarFillerTrim
+//@   props    C02 C07
+//@   modifies nothing
+//@   ensures  option: result != nil && fnof(result) == fn("BarFillerTrim$1")
+
+//@ func BarFillerTrim$1
+//@   props    C02 C07
+//@   requires s != nil
+//@   modifies s.trimSpace
+//@   ensures  set: s.trimSpace == true
+
+//@ func BarNoPop
+//@   props    C02 C18
+//@   modifies nothing
+//@   ensures  option: result != nil && fnof(result) == fn("BarNoPop$1")
+
+//@ func BarNoPop$1
+//@   props    C02 C18
+//@   requires s != nil
+//@   modifies s.noPop
+//@   ensures  set: s.noPop == true
+
+//@ func WithWaitGroup
+//@   props    C02 C14
+//@   modifies nothing
+//@   ensures  option: result != nil && fnof(result) == fn("WithWaitGroup$1") && bound(result, "wg") == in(wg)
+
+//@ func WithWaitGroup$1
+//@   props    C02 C14
+//@   requires s != nil
+//@   modifies s.uwg
+//@   ensures  set: s.uwg == wg
+
+//@ func WithWidth
+//@   props    C02 C04 C07
+//@   modifies nothing
+//@   ensures  option: result != nil && fnof(result) == fn("WithWidth$1") && bound(result, "width") == in(width)
+
+//@ func WithWidth$1
+//@   props    C02 C04 C07
+//@   requires s != nil
+//@   modifies s.reqWidth
+//@   ensures  set: s.reqWidth == width
+
+//@ func WithQueueLen
+//@   props    C02 C05
+//@   modifies nothing
+//@   ensures  option: result != nil && fnof(result) == fn("WithQueueLen$1") && bound(result, "len") == in(len)
+
+//@ func WithQueueLen$1
+//@   props    C02 C05
+//@   requires s != nil
+//@   modifies s.hmQueueLen
+//@   ensures  set: s.hmQueueLen == len
+
+//@ func WithRefreshRate
+//@   props    C02 C04
+//@   modifies nothing
+//@   ensures  option: result != nil && fnof(result) == fn("WithRefreshRate$1") && bound(result, "d") == in(d)
+
+//@ func WithRefreshRate$1
+//@   props    C02 C04
+//@   requires s != nil
+//@   modifies s.refreshRate
+//@   ensures  set: s.refreshRate == d
+
+//@ func WithManualRefresh
+//@   props    C02 C13 C04
+//@   modifies nothing
+//@   ensures  option: result != nil && fnof(result) == fn("WithManualRefresh$1") && bound(result, "ch") == in(ch)
+
+//@ func WithManualRefresh$1
+//@   props    C02 C13 C04
+//@   requires s != nil
+//@   modifies s.manualRC
+//@   ensures  set: s.manualRC == ch
+
+//@ func WithShutdownNotifier
+//@   props    C02 C14
+//@   modifies nothing
+//@   ensures  option: result != nil && fnof(result) == fn("WithShutdownNotifier$1") && bound(result, "ch") == in(ch)
+
+//@ func WithShutdownNotifier$1
+//@   props    C02 C14
+//@   requires s != nil
+//@   modifies s.shutdownNotifier
+//@   ensures  set: s.shutdownNotifier == ch
+
+//@ func WithAutoRefresh
+//@   props    C02 C04 C03
+//@   modifies nothing
+//@   ensures  option: result != nil && fnof(result) == fn("WithAutoRefresh$1")
+
+//@ func WithAutoRefresh$1
+//@   props    C02 C04 C03
+//@   requires s != nil
+//@   modifies s.autoRefresh
+//@   ensures  set: s.autoRefresh == true
+
+//@ func PopCompletedMode
+//@   props    C02 C18
+//@   modifies nothing
+//@   ensures  option: result != nil && fnof(result) == fn("PopCompletedMode$1")
+
+//@ func PopCompletedMode$1
+//@   props    C02 C18
+//@   requires s != nil
+//@   modifies s.popCompleted
+//@   ensures  set: s.popCompleted == true
+
+// conditional application of an option
+//@ func BarOptional
+//@   props    C02 C09
+//@   modifies nothing
+//@   ensures  (cond ==> result == option) && (!cond ==> result == nil)
+//@ func ContainerOptional
+//@   props    C02 C05
+//@   modifies nothing
+//@   ensures  (cond ==> result == option) && (!cond ==> result == nil)
 
 //@ func NewWithContext
 //@   props    C02 C05 C04 C15
@@ -1413,6 +1603,8 @@ package mpb
 //@ func (*Bar).SetPriority
 //@   props    C06 C02
 //@   requires b != nil
+//@   ensures  immediate: called("(*Progress).UpdateBarPriority") == old(called("(*Progress).UpdateBarPriority")) + 1 && calledWith("(*Progress).UpdateBarPriority", 0) == b.container
+//@              && calledWith("(*Progress).UpdateBarPriority", 1) == b && calledWith("(*Progress).UpdateBarPriority", 2) == priority && calledWith("(*Progress).UpdateBarPriority", 3) == false
 
 //@ func (*Bar).TraverseDecorators$1
 //@   props    C02
@@ -1428,12 +1620,17 @@ package mpb
 //@   requires s != nil
 
 //@ func (*Progress).New
-//@   props    C02
+//@   props    C02 C09
 //@   requires p != nil
+//@   ensures  forwarded: called("(*Progress).MustAdd") == old(called("(*Progress).MustAdd")) + 1 && calledWith("(*Progress).MustAdd", 0) == p && calledWith("(*Progress).MustAdd", 1) == total
+//@              && calledWith("(*Progress).MustAdd", 3) == options && result == returned("(*Progress).MustAdd", 0)
+//@   ensures  built: builder != nil ==> called("mpb.BarFillerBuilder.Build") == old(called("mpb.BarFillerBuilder.Build")) + 1 && calledWith("(*Progress).MustAdd", 2) == returned("mpb.BarFillerBuilder.Build", 0)
 
 //@ func (*Progress).MustAdd
-//@   props    C02
+//@   props    C02 C09
 //@   requires p != nil
+//@   ensures  forwarded: called("(*Progress).Add") == old(called("(*Progress).Add")) + 1 && calledWith("(*Progress).Add", 0) == p && calledWith("(*Progress).Add", 1) == total
+//@              && calledWith("(*Progress).Add", 2) == filler && calledWith("(*Progress).Add", 3) == options && result == returned("(*Progress).Add", 0)
 
 //@ func (*bState).wSyncTable
 //@   props    C12 C02
@@ -1478,8 +1675,12 @@ package mpb
 //@   loop 1   invariant 0 <= left && right < len(rows) && left + right == len(rows) - 1
 
 //@ func (*Progress).AddBar
-//@   props    C02
+//@   props    C02 C09
 //@   requires p != nil
+//@   ensures  forwarded: called("(*Progress).New") == old(called("(*Progress).New")) + 1 && calledWith("(*Progress).New", 0) == p && calledWith("(*Progress).New", 1) == total
+//@              && calledWith("(*Progress).New", 2) == returned("BarStyle", 0) && calledWith("(*Progress).New", 3) == options && result == returned("(*Progress).New", 0)
 //@ func (*Progress).AddSpinner
-//@   props    C02
+//@   props    C02 C09
 //@   requires p != nil
+//@   ensures  forwarded: called("(*Progress).New") == old(called("(*Progress).New")) + 1 && calledWith("(*Progress).New", 0) == p && calledWith("(*Progress).New", 1) == total
+//@              && calledWith("(*Progress).New", 2) == returned("SpinnerStyle", 0) && calledWith("(*Progress).New", 3) == options && result == returned("(*Progress).New", 0)
